@@ -1,15 +1,23 @@
 import Rustemo.Props.C01
+import Rustemo.Proofs.Viable
+import Rustemo.Proofs.ViableExample
 /-!
 # C12 — syntax errors point at the first offending token; sentences never error
 
-PARTIAL.  Proved: a sentence is never rejected (`C12_sentences_never_error`, the parser result is
-`accept` for every sufficiently large fuel and can therefore never be an error); an input that is
+LR half proved, GLR half PARTIAL.  Proved: a sentence is never rejected (`C12_sentences_never_error`, the parser
+result is `accept` for every sufficiently large fuel and can therefore never be an error); an input that is
 rejected is not a sentence; the error the byte-level model reports always carries a non-empty list
 of expected tokens and the position reached after skipping layout, i.e. the start of the token that
-was not accepted (`C12_error_expected_nonempty`).
-NOT proved (decided by an independent Earley viable-prefix oracle on generated inputs, for the real LR
-and GLR parsers): that the rejected token is the *first* token that cannot continue any sentence
-(merged lookaheads only delay the error by reductions, never past a shift); the GLR half.
+was not accepted (`C12_error_expected_nonempty`); and the POSITION claim (second half of this file):
+the rejected token is the *first* token that cannot continue any sentence beginning with the tokens
+before it — `C12_error_at_first_offending_token` (token level, any table passing `certC12`) from
+`C12_no_early_error` (prefix locality + completeness) and `C12_no_late_error` (the parser never shifts a
+token that makes the consumed prefix non-viable; merged lookaheads only delay the error by reductions),
+transferred to the byte-level model for single-character grammars
+(`C12_bytes_error_at_first_offending_token`).  See notes/Viable.md.
+NOT proved (decided by an independent Earley viable-prefix oracle on generated inputs): the GLR half;
+the byte level for multi-character / regex terminals, Layout rules and whitespace between tokens;
+termination (that a non-sentence eventually yields the error rather than running out of fuel).
 -/
 namespace Rustemo.Props.C12
 open Rustemo Rustemo.Props.C01
@@ -70,5 +78,232 @@ theorem C12_error_expected_nonempty (env : Env) (pp : Bool) (ctx ctx' : Ctx) (p 
       injection h2 with h3 h4
       subst h1 h3 h4
       exact ⟨by intro h; exact hne h, rfl, rfl⟩
+
+/-! ## The position claim: the error is at the first offending token (valid-prefix property, LR half)
+
+`ViablePrefix g p` = some sentence begins with `p`.  Hypotheses: `certC01` (structural + complete +
+accept only on STOP, as for C01) and, for the "no late error" half, `Cert.viable`: the grammar is
+reduced (`Cert.productive`, excludes F10 grammars), every item of every state is anchored in its kernel
+by closure steps (`Cert.anchored`), shift/goto targets are non-empty states (`Cert.targetsNonEmpty`).
+All of them are executable and run by the driver on every real table (`cert c01`, `cert viable`). -/
+
+/-- the certificate of the valid-prefix theorems -/
+def certC12 (g : Grammar) (t : Table) : Bool := certC01 g t && Cert.viable g t (autosOf g t)
+
+/-- **No early error.**  If `p ++ [a]` begins some sentence then the parser reports no error while `a`
+    or an earlier token is the lookahead: on `p ++ [a] ++ r` an error leaves at most `|r|` tokens. -/
+theorem C12_no_early_error (g : Grammar) (t : Table) (hcert : certC01 g t = true)
+    (p : List Nat) (a : Nat) (r : List Nat) (hv : ViablePrefix g (p ++ [a])) (fuel k s : Nat)
+    (h : tparse g t (p ++ [a] ++ r) fuel = .error k s) : k ≤ r.length := by
+  unfold certC01 at hcert
+  simp only [Bool.and_eq_true] at hcert
+  obtain ⟨⟨hs, hc⟩, _⟩ := hcert
+  obtain ⟨hC, hW⟩ := Cert.complete_sound g t hc
+  exact viable_no_early_error g t hW hC (Cert.structural_sound _ _ _ hs).item_prod (p ++ [a]) r hv fuel k s h
+
+/-- the same for any split of the input: an error on `q ++ y` with `q` a viable prefix leaves at most
+    `|y|` tokens -/
+theorem C12_no_error_inside_viable_prefix (g : Grammar) (t : Table) (hcert : certC01 g t = true)
+    (q y : List Nat) (hv : ViablePrefix g q) (fuel k s : Nat)
+    (h : tparse g t (q ++ y) fuel = .error k s) : k ≤ y.length := by
+  unfold certC01 at hcert
+  simp only [Bool.and_eq_true] at hcert
+  obtain ⟨⟨hs, hc⟩, _⟩ := hcert
+  obtain ⟨hC, hW⟩ := Cert.complete_sound g t hc
+  exact viable_no_early_error g t hW hC (Cert.structural_sound _ _ _ hs).item_prod q y hv fuel k s h
+
+/-- end of input: if the whole input is a viable prefix, the only error the parser can report is the
+    one with STOP as the lookahead (no tokens remaining) -/
+theorem C12_viable_input_errors_only_at_end (g : Grammar) (t : Table) (hcert : certC01 g t = true)
+    (w : List Nat) (hv : ViablePrefix g w) (fuel k s : Nat)
+    (h : tparse g t w fuel = .error k s) : k = 0 := by
+  have := C12_no_error_inside_viable_prefix g t hcert w [] hv fuel k s (by simpa using h)
+  simpa using this
+
+/-- **Viable prefixes are shifted**: if `q` begins some sentence (and contains no STOP) the run on
+    `q ++ y` reaches a configuration where exactly `q` has been shifted and `y` remains. -/
+theorem C12_viable_prefix_is_shifted (g : Grammar) (t : Table) (hcert : certC01 g t = true)
+    (q y : List Nat) (hnz : ∀ b ∈ q, b ≠ 0) (hv : ViablePrefix g q) :
+    ∃ c, Reaches g t ⟨⟨[], []⟩, q ++ y⟩ ⟨c, y⟩ ∧ c.shifted = q.reverse := by
+  unfold certC01 at hcert
+  simp only [Bool.and_eq_true] at hcert
+  obtain ⟨⟨hs, hc⟩, ha⟩ := hcert
+  obtain ⟨hC, hW⟩ := Cert.complete_sound g t hc
+  exact viable_is_shifted g t (autosOf g t) (Cert.structural_sound _ _ _ hs)
+    (by unfold autosOf; exact List.mem_cons_self) hW hC (acceptStop_sound t ha) q y hnz hv
+
+/-- **No late error**: the parser never SHIFTS a token that makes the consumed prefix non-viable.  In
+    every configuration `c` the run on `w` reaches, the shifted tokens are the first
+    `c.c.shifted.length` tokens of `w` and they begin some sentence.  (With merged LALR lookaheads
+    reductions may happen before the error is detected, but no shift.) -/
+theorem C12_no_late_error (g : Grammar) (t : Table) (hcert : certC12 g t = true)
+    (w : List Nat) (c : TCfg) (hr : Reaches g t ⟨⟨[], []⟩, w⟩ c) :
+    c.c.shifted.reverse = w.take c.c.shifted.length ∧ c.rest = w.drop c.c.shifted.length ∧
+    ViablePrefix g (w.take c.c.shifted.length) := by
+  unfold certC12 certC01 Cert.viable at hcert
+  simp only [Bool.and_eq_true] at hcert
+  obtain ⟨⟨⟨hs, hc⟩, _⟩, ⟨hp, han⟩, hne⟩ := hcert
+  obtain ⟨_, hW⟩ := Cert.complete_sound g t hc
+  obtain ⟨pr0, h1, _, h2⟩ := hW.aug0
+  obtain ⟨hsplit, hv⟩ := reaches_viable g t (autosOf g t) (Cert.structural_sound _ _ _ hs)
+    (Cert.anchored_sound _ _ _ han) (Cert.productive_sound g hp) (Cert.targetsNonEmpty_sound g t hne)
+    (by unfold autosOf; exact List.mem_cons_self) ⟨pr0, h1, h2⟩ w c hr
+  have ht : c.c.shifted.reverse = w.take c.c.shifted.length := by
+    rw [← hsplit, ← List.length_reverse, List.take_left]
+  have hd : c.rest = w.drop c.c.shifted.length := by
+    rw [← hsplit, ← List.length_reverse, List.drop_left]
+  exact ⟨ht, hd, ht ▸ hv⟩
+
+/-- **The parser shifts exactly the viable prefixes** of its input. -/
+theorem C12_shifted_iff_viable (g : Grammar) (t : Table) (hcert : certC12 g t = true)
+    (w : List Nat) (hnz : ∀ b ∈ w, b ≠ 0) (k : Nat) (hk : k ≤ w.length) :
+    (∃ c, Reaches g t ⟨⟨[], []⟩, w⟩ c ∧ c.c.shifted.length = k) ↔ ViablePrefix g (w.take k) := by
+  constructor
+  · intro ⟨c, hr, hlen⟩
+    rw [← hlen]
+    exact (C12_no_late_error g t hcert w c hr).2.2
+  · intro hv
+    have hc1 : certC01 g t = true := by
+      unfold certC12 at hcert; simp only [Bool.and_eq_true] at hcert; exact hcert.1
+    obtain ⟨c, hr, hsh⟩ := C12_viable_prefix_is_shifted g t hc1 (w.take k) (w.drop k)
+      (fun b hb => hnz b (List.mem_of_mem_take hb)) hv
+    rw [List.take_append_drop] at hr
+    exact ⟨⟨c, w.drop k⟩, hr, by simp [hsh, List.length_take, Nat.min_eq_left hk]⟩
+
+/-- **C12 (LR, token level): the error is reported exactly at the first offending token.**
+    If the run on `w` ends in `.error k s` — `k` tokens remaining, i.e. the lookahead is the token of
+    index `i = |w| - k`, or STOP when `k = 0` — then
+    * `w.take i` begins some sentence (all tokens before the reported one can be continued),
+    * if the lookahead is a token (`k ≠ 0`): `w.take (i+1)` begins no sentence — the reported token is
+      the FIRST token that cannot continue any sentence beginning with the tokens before it,
+    * if the lookahead is STOP (`k = 0`): `w` is not a sentence (and, by the first point, is a proper
+      prefix of one),
+    * the error is raised in a configuration reached by the run in which exactly `w.take i` has been
+      shifted, `s` is the top state and the cell of `s` for the lookahead is empty: the expected set
+      is the set of terminals with a non-empty cell in `s`, and the lookahead is not in it. -/
+theorem C12_error_at_first_offending_token (g : Grammar) (t : Table) (hcert : certC12 g t = true)
+    (w : List Nat) (fuel k s : Nat) (h : tparse g t w fuel = .error k s) :
+    k ≤ w.length ∧ ViablePrefix g (w.take (w.length - k)) ∧
+    (k ≠ 0 → ¬ ViablePrefix g (w.take (w.length - k + 1))) ∧
+    (k = 0 → ¬ Sentence g w) ∧
+    ∃ c, Reaches g t ⟨⟨[], []⟩, w⟩ c ∧ c.rest = w.drop (w.length - k) ∧
+         c.c.shifted.reverse = w.take (w.length - k) ∧
+         s = topOf 0 c.c.stack ∧ t.cell s (lookahead c.rest) = [] := by
+  unfold certC12 certC01 Cert.viable at hcert
+  simp only [Bool.and_eq_true] at hcert
+  obtain ⟨⟨⟨hs, hc⟩, _⟩, ⟨hp, han⟩, hne⟩ := hcert
+  obtain ⟨hC, hW⟩ := Cert.complete_sound g t hc
+  exact error_at_first_offending g t (autosOf g t) (Cert.structural_sound _ _ _ hs)
+    (Cert.anchored_sound _ _ _ han) (Cert.productive_sound g hp) (Cert.targetsNonEmpty_sound g t hne)
+    (by unfold autosOf; exact List.mem_cons_self) hW hC w fuel k s h
+
+/-- every non-sentence is rejected with an error at its first offending token: an input that is not a
+    sentence never yields `accept`, so as soon as the run ends (enough fuel, no panic) it ends in the
+    error characterised by `C12_error_at_first_offending_token` -/
+theorem C12_nonsentence_not_accepted (g : Grammar) (t : Table) (hcert : certC01 g t = true)
+    (w : List Nat) (hnz : ∀ x ∈ w, x ≠ 0) (hw : ¬ Sentence g w) (fuel : Nat) (tr : Tree) :
+    tparse g t w fuel ≠ .accept tr := by
+  intro h
+  exact hw ⟨tr, C01_accepted_is_sentence g t hcert w hnz fuel tr h⟩
+
+/-! ### non-vacuity -/
+
+/-- the hand-compiled table of `S: 'a' S | EMPTY` passes the whole certificate -/
+example : certC12 Example.g Example.t = true := by decide
+set_option maxRecDepth 8192 in
+/-- … and so does the real LALR table of `S: 'a' A 'c' | 'b' A 'd'; A: 'x'` (merged lookaheads) -/
+example : certC12 Example2.g Example2.t = true := by decide
+
+/-- `a` is a viable prefix of `S: 'a' S | EMPTY`; the unknown token 2 after it is reported with one
+    token remaining (index 1) -/
+example : ViablePrefix Example.g [1] ∧ Example2.errorOf (tparse Example.g Example.t [1, 2] 20) = some (1, 1) :=
+  ⟨⟨[], sentence_of_validB Example.g (Tree.mk 1 [Tree.tok 1, Tree.mk 2 []]) _ (by decide)⟩, by decide⟩
+
+/-- `a x d` on the LALR table: `a x` begins the sentence `a x c`; the parser reduces `A: x` (merged
+    lookahead `d`) and then reports the error in state 5 with `d` (index 2, one token remaining) as the
+    lookahead — the hypotheses of `C12_error_at_first_offending_token` are satisfiable with `k ≠ 0` -/
+example : ViablePrefix Example2.g [1, 5] ∧
+    Example2.errorOf (tparse Example2.g Example2.t [1, 5, 4] 20) = some (1, 5) :=
+  ⟨⟨[3], sentence_of_validB Example2.g Example2.treeAxc _ (by decide)⟩, by decide⟩
+
+/-- `a x` is a proper prefix of a sentence: the error is reported with STOP as the lookahead (`k = 0`) -/
+example : Example2.errorOf (tparse Example2.g Example2.t [1, 5] 20) = some (0, 4) := by decide
+
+/-- an unproductive grammar (`S: 'a' S`, F10) fails `Cert.productive`: out of scope, and rightly so —
+    no prefix is viable there although the parser shifts `a` -/
+example : Cert.productive Example2.unproductive = false := by decide
+
+/-! ## The same at the byte level (single-character terminals)
+
+Through `C01_bytes_error_is_token_error` the position claim transfers to the byte-level model
+`LR.parse` — the model that is diffed against the real `LRParser` — for the grammars of the C01/C12
+generators (one ASCII character per terminal): the reported byte offset IS the token index. -/
+
+/-- **C12 (LR, byte level).**  If `LR.parse` reports an error it is `expected p ks` where, with
+    `w = tokens of the input`: the tokens before byte `p.pos` begin some sentence; if `p.pos` is inside
+    the input the tokens up to and including the one at `p.pos` begin no sentence (first offending
+    token); if `p.pos` is the end of the input, the input is not a sentence (but a prefix of one); and
+    `ks` lists exactly the terminals with a non-empty cell in a state `s` that has no action for the
+    rejected token (so `ks ≠ []` and the rejected token is not in `ks`). -/
+theorem C12_bytes_error_at_first_offending_token (env : Env) (hcert : certC12 env.g env.t = true)
+    (hlex : Cert.singleCharLexer env.g env.t = true) (henv : CharEnv env)
+    (fuel : Nat) (ctx : Ctx) (e : PErr) (h : parse env false fuel = (ctx, .err e)) :
+    ∃ p s, e = .expected p ((env.t.sorted s).map (·.1)) ∧ p.pos ≤ env.input.length ∧
+      ViablePrefix env.g ((tokensOf env.g env.input).take p.pos) ∧
+      (p.pos < env.input.length → ¬ ViablePrefix env.g ((tokensOf env.g env.input).take (p.pos + 1))) ∧
+      (p.pos = env.input.length → ¬ Sentence env.g (tokensOf env.g env.input)) ∧
+      (∀ a, a ∈ (env.t.sorted s).map (·.1) ↔ env.t.cell s a ≠ []) ∧
+      (env.t.sorted s).map (·.1) ≠ [] ∧
+      env.t.cell s (lookahead ((tokensOf env.g env.input).drop p.pos)) = [] := by
+  obtain ⟨k, s, p, he, hpk, ht⟩ := C01_bytes_error_is_token_error env hlex henv fuel ctx e h
+  have hsc := Cert.singleCharLexer_sound _ _ hlex
+  obtain ⟨hk, hv, hnv, hns, c, hr, hrest, _, hs, hcell⟩ :=
+    C12_error_at_first_offending_token env.g env.t hcert _ _ k s ht
+  have hlen : (tokensOf env.g env.input).length = env.input.length := by simp [tokensOf]
+  have hidx : (tokensOf env.g env.input).length - k = p.pos := by omega
+  rw [hidx] at hv hnv hrest
+  refine ⟨p, s, he, by omega, hv, ?_, ?_, hsc.sorted_cell s, ?_, ?_⟩
+  · intro hlt; exact hnv (by omega)
+  · intro heq; exact hns (by omega)
+  · -- the state is a state of the table: it is the top state of a reachable configuration
+    intro hnil
+    have hcert' := hcert
+    unfold certC12 certC01 at hcert'
+    simp only [Bool.and_eq_true] at hcert'
+    have hstr := Cert.structural_sound _ _ _ hcert'.1.1.1
+    have hinv := reaches_tinv env.g env.t _ hstr ⟨0, 0, env.g.startIdx⟩
+      (by unfold autosOf; exact List.mem_cons_self) rfl _ hr (tinv_init _ _ _)
+    have hrange : s < env.t.states.size := by
+      rw [hs]
+      cases hst : c.c.stack with
+      | nil => exact hsc.start_range
+      | cons e es =>
+        obtain ⟨s1, tr⟩ := e
+        have hp := hinv.cinv.path
+        rw [hst] at hp
+        obtain ⟨⟨X, _, htr⟩, _⟩ := hp
+        simp only [topOf]
+        unfold Table.trans at htr
+        split at htr
+        · exact hsc.shift_range _ _ _ htr
+        · exact hsc.goto_range _ _ _ htr
+    exact hsc.sorted_ne s hrange (List.map_eq_nil_iff.mp hnil)
+  · rw [← hrest]; exact hcell
+
+/-- sentences never error, at the byte level -/
+theorem C12_bytes_sentences_never_error (env : Env) (hcert : certC01 env.g env.t = true)
+    (hlex : Cert.singleCharLexer env.g env.t = true) (henv : CharEnv env)
+    (hs : Sentence env.g (tokensOf env.g env.input)) (fuel : Nat) (ctx : Ctx) (e : PErr) :
+    parse env false fuel ≠ (ctx, .err e) := by
+  intro h
+  obtain ⟨k, s, p, _, _, ht⟩ := C01_bytes_error_is_token_error env hlex henv fuel ctx e h
+  exact C12_error_only_on_nonsentence env.g env.t hcert _ _ k s ht hs
+
+set_option maxRecDepth 8192 in
+/-- non-vacuity: the byte-level hypotheses hold of the example with merged LALR lookaheads, and "axd"
+    is a rejected input (error at byte 2, expected `c`) -/
+example : certC12 Example3.g2 Example2.t = true ∧ Cert.singleCharLexer Example3.g2 Example2.t = true ∧
+    Example3.errOf (parse (Example3.envOf Example3.g2 Example2.t Example3.axd false) false 50).2 = some (2, [3]) := by
+  decide
 
 end Rustemo.Props.C12
